@@ -76,9 +76,14 @@ def named_stores(tree: Tree, fn: FuncInfo, cache: dict | None = None) -> list[Pr
     rd = _rd_for(fn, cache)
     out: list[ProvStore] = []
     for node in walk_function(fn.node, nested=False):
-        if not isinstance(node, ast.Assign) or len(node.targets) != 1 or not isinstance(node.targets[0], ast.Subscript):
+        if isinstance(node, ast.DictComp):
+            # `{naming(...): value for ...}` - the comprehension form of the same store (also what the
+            # loader's normal form turns `d = {}; for ..: d[k] = v` into)
+            key_expr, value_expr = node.key, node.value
+        elif isinstance(node, ast.Assign) and len(node.targets) == 1 and isinstance(node.targets[0], ast.Subscript):
+            key_expr, value_expr = node.targets[0].slice, node.value
+        else:
             continue
-        key_expr = node.targets[0].slice
         # the naming call: inline in the key, or in the definition of the key variable(s)
         calls = []
         for n in ast.walk(key_expr):
@@ -100,6 +105,6 @@ def named_stores(tree: Tree, fn: FuncInfo, cache: dict | None = None) -> list[Pr
         if ident is None:
             continue
         identity_defs = rd.uses(ident)
-        value_closure = rd.closure(rd.uses(node.value))
-        out.append(ProvStore(fn, node, key_expr, node.value, call, identity_defs, value_closure))
+        value_closure = rd.closure(rd.uses(value_expr))
+        out.append(ProvStore(fn, node, key_expr, value_expr, call, identity_defs, value_closure))
     return out
